@@ -14,14 +14,18 @@ or weakens a guard makes the build fail, which the check reports as a broken pro
   name is there) holds at every call of an executor in the source.
 * `const_access_defined` / `rel_access_defined`: what the numbers mean — any list at least as long as the guaranteed minimum has every
   element the site reads.
+* `nil_unguarded_inventory`: non-`,ok` type assertions and dereferences of values returned by nil-capable lookups (`LPop`, `Index`,
+  `GetByName`, `ExecCommand`, …) are classed `guarded` when a `, ok` flag tested true or a `!= nil` test dominates them on every path; the
+  unguarded ones are exactly the reviewed list `expectedNilUnguarded`.  A new `x := list.Index(i); x.Val` without a nil test breaks it.
 * `dynamic_inventory`: the sites for which the extractor established NO bound are exactly the hand-reviewed list `expectedDynamic`
   (each with the reason it cannot go out of range, or that only the enumeration covers it).  A new unguarded site breaks it.
 
 Partial / trusted: the extractor's dominator analysis is Go code, not verified (its rules are in the header of `harness/sites.go`); the
-reviewed reasons in `expectedDynamic` are prose, checked by a human and exercised by the suites named there; nil dereferences, writes to
-nil maps and explicit `panic` calls are not in the inventory.  So C04's panic-freedom of the Go executors is: Lean-checked arithmetic over
-extracted guards for the 215 + 70 guarded sites (at the time of writing), reviewed list + bounded-exhaustive enumeration for
-the 126 others.
+reviewed reasons in `expectedDynamic` / `expectedNilUnguarded` are prose, checked by a human and exercised by the suites named there; nil
+dereferences other than those of nil-capable lookup results, writes to nil maps and explicit `panic` calls are not in the inventory; facts
+about struct-field paths (`s.timeStamps`, `state.bulkLen`) ignore other goroutines and die at every call.  So C04's panic-freedom of the Go executors is: Lean-checked arithmetic over
+extracted guards for the 221 + 74 guarded sites (at the time of writing), reviewed list + bounded-exhaustive enumeration for
+the 115 others.
 -/
 namespace Sites
 
@@ -139,10 +143,6 @@ def expectedDynamic : List (String × String × String) := [
   ("memdb/pubsub_struct.go", "(*ChanMap).Subscribe", "assert channelTmp.(*Chan)"),
   -- ChanMap.item only ever receives *Chan (single item.Set in Create); C19 suites
   ("memdb/pubsub_struct.go", "(*ChanMap).UnSubscribe", "assert channelTmp.(*Chan)"),
-  -- keys holds one entry per cmd[1..] (counting for-loop append, not a range) and len(cmd) >= 2 / >= 3 was checked: len(keys) >= 1; C11 suites + enumeration
-  ("memdb/sets.go", "sDiffSet", "index keys[0]"),
-  -- keys holds one entry per cmd[1..] (counting for-loop append, not a range) and len(cmd) >= 2 / >= 3 was checked: len(keys) >= 1; C11 suites + enumeration
-  ("memdb/sets.go", "sDiffStoreSet", "index keys[0]"),
   -- reached only when no key was missing, so sets has one entry per key (>= 1) and shortestSet = len(sets)-1 at the time it was set (0 initially); C11 suites + enumeration
   ("memdb/sets.go", "sInterSet", "index sets[shortestSet]"),
   -- same: 0 <= shortestSet < len(sets)
@@ -175,12 +175,6 @@ def expectedDynamic : List (String × String × String) := [
   ("memdb/snapshot.go", "(*MemDb).LoadSnapshot", "index values[i]"),
   -- values = make([]any, len(file.Keys)), i from `range file.Keys`
   ("memdb/snapshot.go", "(*MemDb).LoadSnapshot", "index values[i]"),
-  -- guarded by `len(s.timeStamps) > 0 &&` in the same condition (a field: not tracked)
-  ("memdb/snapshot.go", "restoreValue", "index s.timeStamps[len(s.timeStamps)-1]"),
-  -- n := len(s.timeStamps); n > 0 && … in the same condition
-  ("memdb/snapshot.go", "restoreValue", "index s.timeStamps[n-1]"),
-  -- vals = make([]string, len(e.Fields)), i from `range e.Fields`
-  ("memdb/snapshot.go", "restoreValue", "index vals[i]"),
   -- Fields: make([][]byte, len(vals)) in the literal above, i from `range vals`
   ("memdb/snapshot.go", "snapshotValue", "index e.Fields[i]"),
   -- t.Len is the list's element counter (>= 0: List invariant, C09 list_never_empty / Ds/ListIdx)
@@ -225,10 +219,6 @@ def expectedDynamic : List (String × String × String) := [
   ("memdb/sorted_set_struct.go", "(*SortedSetNode).Comp", "assert val.(*SortedSetNode)"),
   -- idx <= len(cmd): every idx++ follows an `idx < len(cmd)` / `idx+1 < len(cmd)` test of the option loop; C18 suites + enumeration (XADD options in the alphabet)
   ("memdb/stream.go", "xadd", "slice cmd[idx:]"),
-  -- inside `len(ids) == len(entries)` and i < len(ids)
-  ("memdb/stream.go", "xrange", "index entries[i]"),
-  -- inside `len(ids) == len(entries)` and i < len(ids)
-  ("memdb/stream.go", "xrange", "index entries[i]"),
   -- count > 0 && len(ids) > count, and Stream.Range returns ids and entries of equal length
   ("memdb/stream.go", "xrange", "slice entries[:count]"),
   -- after `len(s.timeStamps) == 0` returned (a field: not tracked); callers hold the key's write lock
@@ -277,20 +267,12 @@ def expectedDynamic : List (String × String × String) := [
   ("resp/parser.go", "parseBulkHeader", "slice msg[1 : len(msg)-2]"),
   -- msg comes from readLine's line branch, which returns only len(msg) >= 2; model Resp.parse + C02 exhaustive suite
   ("resp/parser.go", "parseSingleLine", "index msg[0]"),
-  -- msg = make([]byte, bulkLen+2) with bulkLen >= 0 (a field: not tracked)
-  ("resp/parser.go", "readLine", "index msg[len(msg)-1]"),
-  -- same: len(msg) >= 2
-  ("resp/parser.go", "readLine", "index msg[len(msg)-2]"),
-  -- 0 <= state.bulkLen <= maxBulkLen: set by parseBulkHeader after the range check, the branch tests bulkLen >= 0; C02 suite (huge and negative lengths)
-  ("resp/parser.go", "readLine", "make make([]byte, state.bulkLen+2)"),
   -- i from `range m.filters`; returns right after the change
   ("server/cmd_middleware.go", "(*middleware).Delete", "slice m.filters[:i]"),
   -- same: i+1 <= len
   ("server/cmd_middleware.go", "(*middleware).Delete", "slice m.filters[i+1:]"),
   -- len(m.DBs) = cfg.Databases >= 1 (config.go refuses Databases <= 0) — configuration, not client input
   ("server/db_manager.go", "(*Manager).Handle", "index m.DBs[0]"),
-  -- guarded by `dbIdx >= len(m.DBs) || dbIdx < 0` just above (a field: not tracked); C20 suite
-  ("server/db_manager.go", "(*Manager).selectDB", "index m.DBs[dbIdx]"),
   -- cfg.Databases >= 1 from the configuration
   ("server/db_manager.go", "NewManager", "index DBs[0]"),
   -- cfg.Databases >= 1 from the configuration
@@ -324,5 +306,29 @@ def expectedDynamic : List (String × String × String) := [
 
 /-- the unguarded sites in the source are exactly the reviewed ones — re-proved against the regenerated list on every run -/
 theorem dynamic_inventory : Generated.dynamicSites = expectedDynamic := by decide +kernel
+
+/-- Non-`,ok` type assertions and dereferences of possibly-nil lookup results that NO presence / nil test dominates, reviewed by hand:
+    (file, function, kind + text `<-` the nil-capable callee). -/
+def expectedNilUnguarded : List (String × String × String) := [
+  -- reached only after `srcList.Len == 0` returned: Len >= 1, so LPop / RPop return a node (List invariant: Len counts the nodes between Head and Tail; C09 list_never_empty, Ds/ListIdx); LMOVE is in the C09 / C13 suites incl. single-element and src = dst
+  ("memdb/list.go", "lMoveList", "deref popElem.Val <- RPop"),
+  -- same value, second use
+  ("memdb/list.go", "lMoveList", "deref popElem.Val <- RPop"),
+  -- same value, third use
+  ("memdb/list.go", "lMoveList", "deref popElem.Val <- RPop"),
+  -- the tree is instantiated only with *SortedSetNode (SortedSet[*SortedSetNode]); val is a parameter, not a lookup result
+  ("memdb/sorted_set_struct.go", "(*SortedSetNode).Comp", "assert val.(*SortedSetNode)"),
+  -- net.Listen(tcp, …) returned without error: the listener is a *net.TCPListener; start-up, not client input
+  ("raftexample/listener.go", "newStoppableListener", "assert ln.(*net.TCPListener)"),
+  -- Manager.ExecCommand returns nil only for an empty command; this branch runs only when cmdStrings[0] is `rconf`, i.e. len(cmd) >= 1 (cmd and cmdStrings come from the same array); cluster mode
+  ("server/db_manager.go", "(*Manager).HandleCluster", "deref res.ToBytes <- ExecCommand")]
+
+/-- the assertions / dereferences without a dominating presence or nil test are exactly the reviewed ones; the guarded ones
+    (`Generated.nilGuardedSites`: `v, ok := m.ttlKeys.Get(k)` … `v.(*TTLInfo)` behind `ok`, `node := GetByName(…)` … `node.Value` behind `node != nil`)
+    need no review of reachability — the TYPE asserted on a present value is still the reviewed homogeneity of the container, see `expectedDynamic` -/
+theorem nil_unguarded_inventory : Generated.nilUnguardedSites = expectedNilUnguarded := by decide +kernel
+
+/-- the guard recognition is not vacuous -/
+theorem nil_guarded_nonempty : 15 ≤ Generated.nilGuardedSites.length := by decide +kernel
 
 end Sites
